@@ -57,7 +57,7 @@ def _removed_hydrogens_are_rebuilt(prog, r4):
         raise AnalysisError("add_hydrogens: class guard of the residue loop not found")
     rebuilt = set()
     for res in residues:
-        it = Interp({U(outer[0].target): res}, call_hook=run.hook, loop_hook=run.loop, strict=True)
+        it = Interp({U(outer[0].target): res}, call_hook=run.hook, loop_hook=run.loop, strict=True, name_hook=run.names)
         skip = it.truth(it.ev(first.test), first.test)
         from ..core import terminates
         if not (skip and terminates(first.body)):
